@@ -54,6 +54,7 @@ struct Options
   int watchdogMs = 4000;
   bool timeoutsOnlyWhenIdle = true; // Random: timed waits time out / sleeps return only when nothing else is enabled
   int timeoutPermille = 0;          // Random: else probability (per decision) to prefer a timed-out waiter
+  bool pointAfterUnlock = false;    // extra schedule point right after every mutex unlock (see sched.cpp)
 };
 
 struct Result
